@@ -1,7 +1,7 @@
 SPECIFICATION Spec
 CONSTANTS
   NT = 3
-  MaxLen = 5
+  MaxLen = 4
   Kind = "qrw"
 INVARIANT Emit
 CHECK_DEADLOCK FALSE
